@@ -9,6 +9,8 @@ CLAIMED = {
          "SimLoop FIFO/deadline-order faithful to asyncio; gate window defined by the library's own 2 x ping frequency (+1 s and injected stall); stale same-verb replies are indistinguishable at protocol level and counted by a probe."),
  "C07": ("exploration", "3.C07", "Seeded search over arrival sequences/timings of known, unknown, unsolicited, mis-addressed and mal-framed datagrams injected at the live connection's endpoint, with waiters active, loop stalls and client-handler suspension; queue put/pop history checked for exactly-once, capable consumer (independent verb table), head residence <= 4 polling intervals + injected stall, and re-queue iff addressed.",
          "Inner payloads of known verbs well-formed; mean junk rate below the queue's service rate; ambiguous framing held to exactly-once/residence only."),
+ "C05": ("exploration", "3.C05", "Seeded search over STATP histories (0-30 records, hot/boundary/repeated positions, 1-byte form) interleaved with refreshes, under loss/dup/reorder/stalls; history oracle: applied partial writes == concatenation of arrived records in arrival order, one STATQ (seq 1..191) per arrival.",
+         "Records stay inside the block; arrival order = delivery order at the client's endpoint; an abandoned connection is held to prefix consistency only."),
 }
 PENDING = {}
 NA = {
